@@ -22,7 +22,8 @@ TRUSTED = c08.TRUSTED + [
     'the data source is represented by its outcomes (per index: the element or one raise); that SequenceDataSource / '
     '_RangeIterator deliver exactly these is the subject of C09 (Lemmas/RangeIter.lean); a Python generator source ends '
     'at its first raise',
-    'helper threads (num_threads=2) are observed (no multiplex_pool thread alive afterwards), not modelled (C13)',
+    'helper threads are observed (no multiplex_pool thread alive afterwards); of the threaded runner only the source lock wrapper '
+    '_ThreadSafeIterator is modelled (Iter.tsNext / tsServe: call-atomic schedules); queues and thread termination are C04 / C13',
 ]
 ASSUMPTIONS = c08.ASSUMPTIONS + ['skippable = iter_utils._IGNORE_ERROR_TYPES, read from the source on every run']
 RULE = ('failure sets enumerated: every subset of failing positions for streams of 1..4 (quick) / 1..6 (thorough) records x the '
